@@ -360,6 +360,12 @@ def step_check(s, ev, sub, acc):
     if exc is not None and kind == 'trim' and len(v0) and np.max(v0) > 0 and ev[1] < 1:
         acc.violation(f'resize:trim:raises:{type(exc).__name__}', sub, f'trim({ev[1]}) of a spectrum whose maximum {np.max(v0)} is positive raised {exc!r}')
         return False
+    legal = (kind == 'append' and ev[1] in ('legal', 'legal-copy') and len(w0) >= 1) or (kind == 'resample' and ev[1] in ('inside', 'nodes', 'wider') and len(w0) >= 2) \
+        or (kind == 'pad' and len(w0) >= 2 and 0 < ev[1][0] < float(np.min(w0)) and ev[1][1] > float(np.max(w0))) or (kind == 'crop' and any(ev[1] <= a <= ev[2] for a in w0))
+    if exc is not None and legal and not isinstance(exc, (ValueError,)):
+        # (a ValueError may be the library's considered refusal of a degenerate spectrum; anything else on a legal edit is a failure)
+        acc.violation(f'resize:{label if kind != "pad" else "pad"}:legal-edit-raises:{type(exc).__name__}', sub, f'{ev} on a {len(w0)}-sample spectrum raised {exc!r}')
+        return False
     if exc is not None:
         acc.cls('refused-events')
         # a refused operation keeps the spectrum well-formed (checked above) and never alters a sample it retains; the
